@@ -195,10 +195,10 @@ class Inst:
         if kind == "construct":
             mode = self.scn.get("params_mode", "own")
             if mode == "default":
-                self.prob, _ = record.make_problem(self.scn, cap=3000)
+                self.prob, _ = record.make_problem(self.scn, cap=25000)
                 self.solver = Solver(self.prob)                      # the constructor's default SolverParameters
             elif mode == "shared":
-                self.prob, _ = record.make_problem(self.scn, cap=3000)
+                self.prob, _ = record.make_problem(self.scn, cap=25000)
                 self.solver = Solver(self.prob, parameters=self.shared)   # one user object passed to several solvers
             elif self.scn.get("bench"):
                 from vlib import bench
@@ -258,7 +258,8 @@ def snap_eq(a, b):
 
 
 def log_eq(a, b):
-    return len(a) == len(b) and all(np.array_equal(x["y"], y["y"]) and record.same_value(x["v"], y["v"]) for x, y in zip(a, b))
+    return len(a) == len(b) and all(np.array_equal(x["y"], y["y"]) and (record.same_value(x["v"], y["v"]) or (x["v"] is None and y["v"] is None))
+                                    for x, y in zip(a, b))
 
 
 def shared_params():
